@@ -790,15 +790,16 @@ def run(ctx, model_ok=True):
 
 
 def search(ctx):
-    """a tie broke without a failing input: every byte offset for more n, many more schedules"""
+    """a tie broke without a failing input: kills and I/O errors at every byte offset for tiny n,
+    every leftover prefix for a few more n, and a second batch of schedules"""
     logging.disable(logging.CRITICAL)
     sb = Sandbox(ctx)
     jobs = []
     try:
-        for n in (2, 3, 5, 17):
-            tab, ser = reference(sb, n)
-            killer = Killer(ctx)
-            try:
+        killer = Killer(ctx)
+        try:
+            for n in (2, 3):
+                tab, ser = reference(sb, n)
                 for k in range(len(ser)):
                     d = sb.fresh_dir()
                     sb.final(n)
@@ -807,12 +808,21 @@ def search(ctx):
                     sb.drop(d)
                     if ctx.oracle_fails:
                         return
-            finally:
-                killer.close()
-        for _ in range(3):
-            scen_schedules(ctx, sb, jobs)
-            if ctx.oracle_fails:
-                return
+        finally:
+            killer.close()
+        for n in (3, 7, 17):
+            tab, ser = reference(sb, n)
+            for k in range(len(ser)):
+                d = sb.fresh_dir()
+                fin = sb.final(n)
+                with open(fin, "wb") as f:
+                    f.write(ser[:k])
+                if not same_table(build(n), tab):
+                    ctx.oracle_fail("leftover:wrong-table", "first %d of %d bytes were used as a table" % (k, len(ser)),
+                                    {"n": n, "leftover": "truncated", "bytes_kept": k, "file_size": len(ser)})
+                    return
+                sb.drop(d)
+        scen_schedules(ctx, sb, jobs)
     finally:
         sb.close()
         logging.disable(logging.NOTSET)
